@@ -364,6 +364,23 @@ class SymInverse:
         cap("inv", A=A, b=b, x=x)
         return np.array(x, dtype=object).view(SymArray)
 
+    def __getitem__(self, idx):
+        """column j of the inverse: the vector c with A c = e_j (other index patterns are not modelled)"""
+        c = core.CTX
+        A = self.A
+        n = A.shape[0]
+        if not (isinstance(idx, tuple) and len(idx) == 2 and idx[0] == slice(None) and isinstance(idx[1], (int, np.integer))):
+            raise Inconclusive(f"symbolic inverse indexed with {idx!r}")
+        j = int(idx[1]) % n
+        key = ("invcol", tuple(lift(v).get_id() for v in A.flat), j)
+        memo = c.memo.setdefault("kkt", {})
+        if key not in memo:
+            xs = [c.newvar(f"invc{j}_{i}_") for i in range(n)]
+            cons = [z3.Sum([lift(A[i, k]) * xs[k] for k in range(n)]) == (1 if i == j else 0) for i in range(n)]
+            c.add_def(Def(xs, "inv", z3.And(*cons)))
+            memo[key] = ([SymReal(x) for x in xs], A, None)
+        return np.array(memo[key][0], dtype=object).view(SymArray)
+
     def __array__(self, *a, **k):
         raise Inconclusive("symbolic inverse used other than as inv @ b")
 
